@@ -16,7 +16,7 @@ from rv.project import Project
 
 PROPERTY = "C07"
 LEVEL = "exploration"
-BUDGET_S = {"quick": 60, "thorough": 900}
+BUDGET_S = {"quick": 60, "thorough": 3600}
 RULE = (
     "one evaluation = one seeded history of 1-25 connect/disconnect requests over two projects of 2-7 modules, every "
     "operand form (call, >>, <<, ModuleList chains, ~, lists, repeats, self pairs, output, foreign-project operands); "
@@ -322,7 +322,7 @@ def small_exhaustive_cases():
 
 
 def plan(tier, seed):
-    n = 40000 if tier == "quick" else 600000
+    n = 40000 if tier == "quick" else 1500000
     per = 1000
     units = [{"kind": "seeded", "seed": seed, "first": i, "count": min(per, n - i), "tier": tier} for i in range(0, n, per)]
     units.insert(0, {"kind": "small", "upto": 2 if tier == "quick" else 3})
